@@ -217,7 +217,9 @@ Violate(D, v, site, N) ==
                 at == ((site \div 6) % (4 - ((site % 3) + 1))) + (site % 3) + 2
             IN [viol |-> "duplicate parameter", tag |-> <<"param", Len(D.conds) + 1, at>>, doc |-> [D EXCEPT !.conds = Append(@, [c EXCEPT !.params = InsertAt(@, at, dup)])]]
        [] v = 8 ->     \* extend in a non-modular model
-            [viol |-> "extend in model", tag |-> <<"type", (site % Len(D.types)) + 1>>, doc |-> [D EXCEPT !.header = "model", !.schema = "1.1", !.types[(site % Len(D.types)) + 1].ext = TRUE]]
+            \* (whatever the schema version says: 1.2 is the version modular models are written in, a `model` header is no module header)
+            [viol |-> "extend in model", tag |-> <<"type", (site % Len(D.types)) + 1>>,
+             doc |-> [D EXCEPT !.header = "model", !.schema = IF (site \div Len(D.types)) % 2 = 0 THEN "1.1" ELSE "1.2", !.types[(site % Len(D.types)) + 1].ext = TRUE]]
        [] v = 9 ->     \* the same type extended twice in one module file
             LET t == [name |-> N.doc, ext |-> TRUE, rels |-> <<[name |-> "zz", rw |-> [k |-> "cu", rel |-> N.a], restr |-> <<>>]>>]
                 base0 == [D EXCEPT !.header = "module", !.module = N.p, !.types[2].ext = TRUE]
@@ -232,7 +234,7 @@ Violate(D, v, site, N) ==
        [] v = 12 ->    \* a container parameter type without element type
             LET c == Cond1(N, 1) IN
             [viol |-> "container without element type", tag |-> <<>>,
-             doc |-> [D EXCEPT !.conds = Append(@, [c EXCEPT !.name = "cx", !.params[(site % 3) + 1].ty = IF (site \div 3) % 2 = 0 THEN "list" ELSE "map"])]]
+             doc |-> [D EXCEPT !.conds = Append(@, [c EXCEPT !.name = "cx", !.params[(site % 3) + 1].ty = <<"list", "map", "list<>", "map<>">>[((site \div 3) % 4) + 1]])]]     \* (angle brackets with nothing between them are no element type)
        [] v = 13 ->    \* a container parameter type with a nested element type
             LET c == Cond1(N, 1)
                 tys == <<"list<list<string>>", "map<map<int>>", "list<map<bool>>", "map<list<int>>">>
